@@ -2,27 +2,50 @@
 (* Bounded model of the node-side quote history: every sequence of up to MaxLen quotes of two peers over a *)
 (* small table of timestamps / uptimes / payment counts. Checks the clauses on the model and prints every  *)
 (* maximal sequence as a scenario for replay on a real node.                                               *)
+(* Wide = TRUE (simulation only): a third peer "C" that the node comes to consider bad at a step chosen at *)
+(* the start (its further quotes are skipped), and every step carries a flag j = "handed to the node in    *)
+(* the same QuoteVerification command as the step before" -- the model handles a batch entry by entry, so  *)
+(* j changes nothing in the model; it makes the driver group the real commands into batches of up to 4.    *)
 EXTENDS QuoteHistory, TLC, Json
-CONSTANTS MaxLen, Emit
-Peers == {"A", "B"}
+CONSTANTS MaxLen, Emit, Wide
+Peers == IF Wide THEN {"A", "B", "C"} ELSE {"A", "B"}
 TsVals == {100, 120, 140}            \* seconds (relative); 20 s apart: the uptime margin is 10 s
 LiveVals == {50, 70, 90, 200}
 RpcVals == {0, 1, 2}
-VARIABLES st, hist, bad
-vars == <<st, hist, bad>>
-Init == st = HInit(Peers) /\ hist = <<>> /\ bad = {}
-Step(p, q) ==
-    LET s2 == VerifyQuote(st, p, q) IN
+Joins == IF Wide THEN BOOLEAN ELSE {FALSE}
+VARIABLES st, hist, bad, shun, markAt
+vars == <<st, hist, bad, shun, markAt>>
+Init == /\ st = HInit(Peers) /\ hist = <<>> /\ bad = {} /\ shun = {}
+        /\ markAt \in (IF Wide THEN 0..(MaxLen - 1) ELSE {0})     \* 0: the node never comes to consider C bad
+Step(p, q, j) ==
+    LET s2 == HandleEntry(st, p \in shun, p, q) IN
     /\ st' = s2
-    /\ hist' = Append(hist, [p |-> p, q |-> q])
+    /\ hist' = Append(hist, [p |-> p, q |-> q, j |-> j, mark |-> FALSE])
     /\ bad' = (IF C13_History_Node(st.kept[p], q, s2.issue[p]) THEN {} ELSE {"C13_History_Node"})
               \cup (IF C13_HistoryKeeps(st.kept[p], q, s2.kept[p]) THEN {} ELSE {"C13_HistoryKeeps"})
+    /\ UNCHANGED <<shun, markAt>>
+\* the node comes to consider p bad (three issues on record)
+Mark(p) ==
+    /\ st' = [st EXCEPT !.issue[p] = TRUE]
+    /\ shun' = shun \cup {p}
+    /\ hist' = Append(hist, [p |-> p, q |-> NoQuote, j |-> FALSE, mark |-> TRUE])
+    /\ bad' = {}
+    /\ UNCHANGED markAt
 Next == /\ Len(hist) < MaxLen
-        /\ \E p \in Peers, t \in TsVals, l \in LiveVals, r \in RpcVals : Step(p, [ts |-> t, live |-> l, rpc |-> r])
+        /\ IF Len(hist) + 1 = markAt THEN Mark("C")
+           ELSE \E p \in Peers, t \in TsVals, l \in LiveVals, r \in RpcVals, j \in Joins : Step(p, [ts |-> t, live |-> l, rpc |-> r], j)
 Spec == Init /\ [][Next]_vars
 NoClauseFalsified == bad = {}
 \* the retained quote of a peer is consistent with ... itself being the newest unflagged one: once an issue is
 \* on record it stays
 IssueSticky == [][\A p \in Peers : st.issue[p] => st'.issue[p]]_vars
+\* a peer considered bad keeps what was retained for it
+ShunnedFrozen == [][\A p \in shun : st'.kept[p] = st.kept[p]]_vars
+\* handling a sequence entry by entry and handling it as one batch is the same thing in the model
+BatchIsSequence ==
+    LET ents == SelectSeq(hist, LAMBDA h : ~h.mark)
+        firstMark == IF \E i \in DOMAIN hist : hist[i].mark THEN CHOOSE i \in DOMAIN hist : hist[i].mark ELSE Len(hist) + 1 IN
+    \* (only checked for histories without a mark inside: bad0 is constant then)
+    firstMark > Len(hist) => HandleBatch(HInit(Peers), [i \in DOMAIN ents |-> [p |-> ents[i].p, q |-> ents[i].q, bad0 |-> FALSE]]) = st
 Scn == (Emit /\ Len(hist) = MaxLen) => PrintT(<<"SCN", ToJson(hist)>>)
 =============================================================================
